@@ -369,6 +369,9 @@ var vXdsRoutePaths = []string{"", "/", "/s", "/s/", "/s/m", "/S/M", "/s/m2", "/t
 var vXdsRouteHosts = []string{"", "a", "a.b", "a.b.c", "b.c", "x.a.b", "a.b.x", "ab"}
 var vXdsRouteDoms = []string{"*", "a.b", "*.b", "*b", "a.*", "a*", "*.b.c", "a.b.*", "a.b.c", "x.a.b", "ab", "**", "*a.b"}
 
+// patterns that all match the host "a.b.c": universal, prefixes of 3 lengths, suffixes of 4 lengths, exact
+var vXdsRouteMatching = []string{"*", "a*", "a.b*", "a.b.c*", "*c", "*.c", "*.b.c", "*a.b.c", "a.b.c"}
+
 func vXdsRouteBoundary(r *vRand, f int64) int64 {
 	// draws around the fraction, never equal to it (t = f is the known-finding case)
 	cands := []int64{0, 1, f - 2, f - 1, f + 1, f + 2, 499999, 999998, 999999}
@@ -533,10 +536,37 @@ func vXdsRouteGen(r *vRand, tier string, idx int) ([]int64, [][]int64) {
 				ops = append(ops, vCat([]int64{3, 7, w}, vXdsRouteB("/s/m")))
 			}
 		}
+	case idx == 4:
+		// every ordered triple of distinct patterns that all match "a.b.c" (mixed types and
+		// lengths), one per virtual host: a longer lower-ranked pattern displaced by a shorter
+		// higher-ranked one followed by a longer one of that type, and every other order
+		for i, d1 := range vXdsRouteMatching {
+			for j, d2 := range vXdsRouteMatching {
+				for k, d3 := range vXdsRouteMatching {
+					if i == j || j == k || i == k {
+						continue
+					}
+					ops = append(ops, []int64{17}, []int64{15}, vCat([]int64{16}, vXdsRouteB(d1)), []int64{15}, vCat([]int64{16}, vXdsRouteB(d2)),
+						[]int64{15}, vCat([]int64{16}, vXdsRouteB(d3)), vCat([]int64{1}, vXdsRouteB("a.b.c")))
+				}
+			}
+		}
 	case idx%4 == 0:
-		// virtual hosts, with occasional invalid patterns
+		// virtual hosts, with occasional invalid patterns; every second list is a random
+		// arrangement of 3-7 patterns that all match the queried host
 		for k := 0; k < 6; k++ {
-			ops = append(ops, vXdsRouteGenVhosts(r, k%2 == 1)...)
+			if k%2 == 0 {
+				ops = append(ops, []int64{17}, []int64{15})
+				for n := 3 + r.Intn(5); n > 0; n-- {
+					if r.Chance(40) {
+						ops = append(ops, []int64{15})
+					}
+					ops = append(ops, vCat([]int64{16}, vXdsRouteB(vXdsRouteMatching[r.Intn(len(vXdsRouteMatching))])))
+				}
+				ops = append(ops, vCat([]int64{1}, vXdsRouteB("a.b.c")), vCat([]int64{1}, vXdsRouteB("a.b")))
+				continue
+			}
+			ops = append(ops, vXdsRouteGenVhosts(r, k%4 == 1)...)
 			for j := 0; j < 8; j++ {
 				ops = append(ops, vCat([]int64{1}, vXdsRouteB(vXdsRouteHosts[r.Intn(len(vXdsRouteHosts))])))
 			}
